@@ -175,7 +175,9 @@ impl Lexicon {
                     );
                     return Err(VibratoError::invalid_format(name, msg));
                 }
-                let feature = std::str::from_utf8(&features_bytes[..features_len - 1])?;
+                // `features_len` is zero when the input ends right after the fourth comma.
+                let feature =
+                    std::str::from_utf8(&features_bytes[..features_len.saturating_sub(1)])?;
                 if surface.is_empty() {
                     eprintln!(
                         "Skipped an empty surface, {:?}",
